@@ -42,10 +42,11 @@ ASSUMPTIONS = ["OpenMP runtime (libgomp) semantics: which schedule is chosen and
                "md.rmsd/superpose centre their inputs in place (documented): every evaluation gets a fresh copy of its input"]
 
 ANALYSES = ["distances", "displacements", "angles", "dihedrals", "distances_pbc", "angles_pbc", "dihedrals_pbc", "rmsd",
-            "rmsd_serial", "rmsd_subset", "superpose", "superpose_subset", "sasa_atom", "sasa_residue", "neighbors",
+            "rmsd_serial", "rmsd_subset", "superpose", "superpose_serial", "superpose_subset", "sasa_atom", "sasa_residue", "neighbors",
             "neighborlist", "rg", "center_of_mass", "drid", "inertia_tensor", "contacts", "dssp", "kabsch_sander",
             "wernet_nilsson", "baker_hubbard_1"]
 SASA = ("sasa_atom", "sasa_residue")
+PARALLEL_FLAG_PAIRS = [("rmsd", "rmsd_serial"), ("superpose", "superpose_serial")]    # parallel=True vs parallel=False
 DESC_SASA = ("shrake_rupley: a frame's areas depend on which frames the same thread processed before "
              "(per-thread outframebuffer carried across frames): result changes with OMP_NUM_THREADS, neighbours and order")
 DESC_SHARED = "sasa.cpp: a variable declared outside the omp parallel region is written by every thread (not private): data race"
@@ -231,6 +232,7 @@ def trajs_for(ctx):
     if not quick:
         out.append({"id": "2EQQ-all", "kind": "file", "path": pdb, "frames": list(range(20)), "box": False})
         out.append({"id": "one-frame", "kind": "random", "n_atoms": 32, "n_frames": 1, "seed": rng.randrange(10 ** 6), "box": True})
+        out.append({"id": "rand-big", "kind": "random", "n_atoms": 400, "n_frames": 17, "seed": rng.randrange(10 ** 6), "box": True})
     return out
 
 
@@ -251,12 +253,15 @@ def envs_for(ctx, fmax):
         envs.append({"OMP_NUM_THREADS": "2", "OMP_SCHEDULE": "static", "OMP_DYNAMIC": "true"})
         envs.append({"OMP_NUM_THREADS": "3", "OMP_SCHEDULE": "guided", "OMP_DYNAMIC": "true"})
         envs.append({"OMP_NUM_THREADS": "16", "OMP_SCHEDULE": "dynamic,1", "OMP_DYNAMIC": "true"})
+        envs.append({"OMP_NUM_THREADS": "8", "OMP_SCHEDULE": "dynamic,1"})      # a second process with the same settings
     else:
         for t in threads:
             for s in scheds:
                 envs.append({"OMP_NUM_THREADS": str(t), "OMP_SCHEDULE": s})
                 if t in (2, 3, 16):
                     envs.append({"OMP_NUM_THREADS": str(t), "OMP_SCHEDULE": s, "OMP_DYNAMIC": "true"})
+                if t in (3, 16):
+                    envs.append({"OMP_NUM_THREADS": str(t), "OMP_SCHEDULE": s})      # run-to-run: same settings, new process
     return envs
 
 
@@ -279,9 +284,34 @@ def sweep(ctx, trajs, envs, analyses, repeats, perm_seed):
     nf = {t["id"]: n_frames_of(t) for t in trajs}
     stats = {"triples": 0, "hash_comparisons": 0}
     for env in envs:
-        res = run_env(ctx, env, trajs, analyses, repeats, perm_seed)
+        try:
+            res = run_env(ctx, env, trajs, analyses, repeats, perm_seed)
+        except RuntimeError as e:
+            # the interpreter died (abort/segfault inside a kernel): find the analysis and report it as a failing input
+            res = {}
+            found = False
+            for tr in trajs:
+                for name in analyses:
+                    try:
+                        r1 = run_env(ctx, env, [tr], [name], repeats, perm_seed)
+                        res.setdefault(tr["id"], {}).update(r1.get(tr["id"], {}))
+                    except RuntimeError as e1:
+                        found = True
+                        ctx.fail("per-frame analysis kills the interpreter under an OpenMP environment (%s)" % name,
+                                 {"env": env, "traj": tr, "analysis": name, "repeats": repeats, "perm_seed": perm_seed},
+                                 observed=str(e1)[-300:], expected="a result", tags={"analysis": name, "kind": "crash", "explained_by": None})
+            if not found:
+                ctx.fail("the analyses kill the interpreter when run together under an OpenMP environment (not reproduced one by one)",
+                         {"env": env, "traj": trajs[0], "analysis": analyses[0], "repeats": repeats, "perm_seed": perm_seed},
+                         observed=str(e)[-300:], expected="results", tags={"kind": "crash", "explained_by": None})
         en = env_name(env)
         for tid, rr in res.items():
+            for a, b in PARALLEL_FLAG_PAIRS:
+                if a in rr and b in rr and "company" in rr[a] and "company" in rr[b] and rr[a]["company"] != rr[b]["company"]:
+                    ctx.fail("per-frame result differs between parallel=True and parallel=False (%s)" % a,
+                             {"env": env, "traj": [t for t in trajs if t["id"] == tid][0], "analysis": a, "repeats": repeats,
+                              "perm_seed": perm_seed, "pair": b}, observed="hashes differ", expected="bit-identical",
+                             tags={"analysis": a, "kind": "parallel_flag", "explained_by": None})
             for name, rec in rr.items():
                 case = {"env": env, "traj": [t for t in trajs if t["id"] == tid][0], "analysis": name,
                         "repeats": repeats, "perm_seed": perm_seed}
@@ -451,4 +481,5 @@ def replay(ctx, rec):
         if c.get("static") is False:
             stress_shared_counter(ctx)
         return
-    sweep(ctx, [c["traj"]], [c["env"]], [c["analysis"]], c.get("repeats", 2), c.get("perm_seed", 1))
+    names = [c["analysis"]] + ([c["pair"]] if c.get("pair") else [])
+    sweep(ctx, [c["traj"]], [c["env"]], names, c.get("repeats", 2), c.get("perm_seed", 1))
